@@ -254,6 +254,9 @@ func detail(sh *gen.C12Sheet, rd *gen.C12Read, v *view, obs []obsRec, extra map[
 
 // sheetShown: the sheet as shown in evidence samples (the filler of a long line is abbreviated; replays keep it).
 func sheetShown(sh *gen.C12Sheet) string {
+	if sh.BigSheet && len(sh.Text) > 4000 {
+		return sh.Text[:2000] + fmt.Sprintf("\n... (%d bytes, %d lines) ...\n", len(sh.Text), strings.Count(sh.Text, "\n")) + sh.Text[len(sh.Text)-600:]
+	}
 	if !sh.LongLine {
 		return sh.Text
 	}
